@@ -363,6 +363,10 @@ def oracle_splitter(case):
             with open(path) as f:
                 text = f.read()
             rows = c09.logical(parse_pdb_atoms(text))
+            bad = c09.unreadable(rows)
+            if bad:
+                out.append(D("C10:splitter:written-file-unreadable", f"model {m}: {bad}"))
+                continue
             if fits(want):
                 d = c09.diff_tables("splitter:already-fits", want, rows, True)
                 out += [D(x.sig.replace("C09:", "C10:"), x.what) for x in d]
@@ -433,6 +437,10 @@ def oracle_unifier(case):
     finally:
         sys.argv = old
         shutil.rmtree(base, ignore_errors=True)
+    bad = c09.unreadable(rows)
+    if bad:
+        # the written file does not read back as a PDB table at all
+        return [D("C10:unifier:written-file-unreadable", f"{len(rows)} records for {len(want)} atoms; {bad}")]
     by_xyz = {}
     for a in want:
         by_xyz[(round(a["x"], 3), round(a["y"], 3), round(a["z"], 3))] = a
